@@ -625,6 +625,16 @@ def build_machine(ctx: Ctx, max_args: int = 2):
             self._do({"op": "register", "id": p[1] + "-v" + zeros + o_dec(p[2]), "entry": entry,
                       "kwargs": kwargs, "style": "kw"})
 
+        @rule(data=st.data(), prefix=st.sampled_from(["os", "json", "os.path", "jumanji", "jumanji.environments", "vf.dummy",
+                                                     "x", "a.b"]),
+              sep=st.sampled_from([":", ".", "-"]))
+        def f_make_relative_of_registered(self, data, prefix, sep):
+            """An id that is *not* registered but contains a registered one (a module-like or dotted prefix glued to
+            it with one of the allowed name characters): unknown ids must raise, whatever they resemble."""
+            pool = sorted(self.it.model) + ["Snake-v1", "Game2048-v1", "Sudoku-very-easy-v0"]
+            k = data.draw(st.sampled_from(pool))
+            self._do({"op": "make", "id": prefix + sep + k, "args": [], "kwargs": {}})
+
         @rule()
         def e_list_ids(self):
             self._do({"op": "list"})
